@@ -102,8 +102,11 @@ InvPrecedence == Fresh => Precedence(QHosts)
 InvCollisionFails == Fresh => CollisionFails(QHosts)
 PropLookupOrderIrrelevant == LookupOrderIrrelevant(QHosts)
 
-Users == {<<117>>, <<117, 64, 120>>, <<0, 117>>}
-Passes == {<<>>, <<112>>, <<58>>, <<112, 58, 113, 58>>, <<58, 58>>, <<112, 0, 113>>, <<255, 254>>, <<112, 113, 114, 115>>}
+\* all users of 1..2 bytes and passwords of 0..3 bytes over small alphabets holding ':' (passwords), NUL, '@' and a
+\* non-ASCII byte - every padding length of the base64 text occurs; the law itself keeps the pairs it speaks about
+StrsUpTo(A, n) == UNION {[1..k -> A] : k \in 0..n}
+Users == StrsUpTo({117, 0, 255}, 2)
+Passes == StrsUpTo({112, 58, 0, 254}, 3) \cup {<<112, 58, 113, 58>>, <<112, 113, 114, 115, 116>>}
 ASSUME AuthDecodesExactly(Users, Passes)
 \* the user is cut at the FIRST ':', NULs around the password go, other forms are refused
 ASSUME DecodeAuth(B64Encode(<<117, 58, 0, 0, 112, 0>>)) = [ok |-> TRUE, user |-> <<117>>, pass |-> <<112>>]
